@@ -309,7 +309,7 @@ func cmdC18(args []string) {
 							if kc.many != nil {
 								hd[hACRM] = []string{"GET"} // safelisted: the header step is reached
 							}
-							var v []string
+							var v, v2 []string // v2: a sibling request of the same shape and size (see below)
 							if lab := deepLabels[shape]; lab != "" {
 								// an ALLOWED origin n labels below example.com (as many as keep the host under 253 bytes: 120 one-byte labels)
 								most := (253 - len("example.com")) / (len(lab) + 1)
@@ -320,6 +320,7 @@ func cmdC18(args []string) {
 									n = most
 								}
 								v = []string{"https://" + strings.Repeat(lab+".", n) + "example.com"}
+								v2 = []string{"https://" + strings.Repeat(lab+".", n-1) + strings.Replace(lab, lab[len(lab)-1:], "b", 1) + ".example.com"}
 							} else if strings.HasPrefix(shape, "allowed") && shape != "allowed-then-junk" {
 								if kc.many == nil || n > len(kc.many) {
 									continue
@@ -344,19 +345,26 @@ func cmdC18(args []string) {
 										continue
 									}
 								}
-								var parts []string
-								for _, nm := range many[:n] {
-									parts = append(parts, pre+spellName(nm)+post)
-								}
-								if shape == "allowed-lines" {
-									v = parts
-								} else if shape == "allowed-pairs" {
-									// several elements PER field line, over many lines (per-line work that a single line hides)
-									for q := 0; q < len(parts); q += 2 {
-										v = append(v, strings.Join(parts[q:min(q+2, len(parts))], ","))
+								render := func(names []string) (v []string) {
+									var parts []string
+									for _, nm := range names {
+										parts = append(parts, pre+spellName(nm)+post)
 									}
-								} else {
-									v = []string{strings.Join(parts, sep)}
+									if shape == "allowed-lines" {
+										v = parts
+									} else if shape == "allowed-pairs" {
+										// several elements PER field line, over many lines (per-line work that a single line hides)
+										for q := 0; q < len(parts); q += 2 {
+											v = append(v, strings.Join(parts[q:min(q+2, len(parts))], ","))
+										}
+									} else {
+										v = []string{strings.Join(parts, sep)}
+									}
+									return
+								}
+								v = render(many[:n])
+								if n < len(many) {
+									v2 = render(many[1 : n+1]) // as many allowed names, not the same ones
 								}
 							} else if strings.HasPrefix(shape, "elen-") {
 								if n > 1000 || n == 1 || kc.many != nil {
@@ -390,15 +398,28 @@ func cmdC18(args []string) {
 									continue // the other request shapes only on the ladders where work per element / line could hide
 								}
 								req := reqSpec{Method: method, H: hd, Shape: reqShape}.build()
+								// where there is a sibling, the two requests are served in ALTERNATION: work that is only done for a request
+								// unlike the previous one (a memo of the last list that was approved, say) is done every time
+								req2 := req
+								if v2 != nil {
+									hd2 := cloneHeader(hd)
+									hd2[field] = v2
+									req2 = reqSpec{Method: method, H: hd2, Shape: reqShape}.build()
+								}
 								w := &nullRW{h: make(http.Header, 8)}
 								preset := ri == 4 // an outer layer has already set CORS and Vary response headers
+								flip := false
 								allocs := testing.AllocsPerRun(20, func() {
 									clear(w.h)
 									if preset {
 										w.h["Access-Control-Allow-Headers"], w.h["Access-Control-Allow-Methods"] = presetACAH, presetACAM
 										w.h["Vary"], w.h["Access-Control-Allow-Origin"], w.h["Access-Control-Expose-Headers"] = presetVary, presetACAO, presetACEH
 									}
-									h.ServeHTTP(w, req)
+									if flip = !flip; flip {
+										h.ServeHTTP(w, req)
+									} else {
+										h.ServeHTTP(w, req2)
+									}
 								})
 								t.emit(map[string]any{"ev": "Alloc", "cfg": kc.name, "dbg": dbg, "field": field, "shape": shape,
 									"method": method + []string{"", "/HTTP1.0", "/HTTP2", "/body", "/preset"}[ri], "size": n, "allocs": int(allocs + 0.5)})
